@@ -48,6 +48,15 @@ fn zqr(a: i32) -> str ! i32 {
     if a > 5 { return "big"!; }
     return a;
 }
+
+fn zqr0() -> str ! i32 {
+    return 4;
+}
+
+fn (z: &Zqs) Try() -> str ! i32 {
+    if z.B { return "no"!; }
+    return z.A;
+}
 `
 
 type c03Snippet struct {
@@ -129,6 +138,14 @@ var c03Snippets = []c03Snippet{
 	{"unhandled_result", "initialiser", c03Always("let zq1: i32 = zqr(1);")},
 	{"unhandled_result", "arithmetic", c03Always("let zq1: i32 = zqr(1) + 1;")},
 	{"unhandled_result", "argument", c03Always("let zq1: i32 = zqh(zqr(1), true);")},
+	{"unhandled_result", "statement", c03Always("zqr(1);")},
+	{"unhandled_result", "statement_no_arguments", c03Always("zqr0();")},
+	{"unhandled_result", "inferred_let_no_arguments", c03Always("let zq1 := zqr0();")},
+	{"unhandled_result", "inferred_let", c03Always("let zq1 := zqr(2);")},
+	{"unhandled_result", "method_no_arguments", c03Always("let zq0: Zqs = {.A = 1, .B = false};", "zq0.Try();")},
+	{"unhandled_result", "method_in_initialiser", c03Always("let zq0: Zqs = {.A = 1, .B = false};", "let zq1: i32 = zq0.Try();")},
+	{"float_to_int", "mixed_literal_expression", c03Always("let zq1: i32 = 1 + 2.5;")},
+	{"float_to_int", "mixed_literal_expression_assignment", c03Always("let zq1: i64 = 1;", "zq1 = 2 * 1.5;")},
 	{"error_return_in_non_result_function", "literal", func(c *fer.StmtSite) []string {
 		if c.HasErr {
 			return nil
